@@ -8,7 +8,7 @@ TIME_FNS = 'date_from_rfc2822,date_from_rfc3339,date_to_rfc2822,date_to_rfc3339,
 
 PROPS = {
  'C03': dict(
-    srcgen={'SrcOrder': 'SlacProps.C13Source'},
+    srcgen={'SrcOrder': 'SlacProps.C13Source', 'SrcInterp': 'SlacProps.C04Source'},
     modules=['SlacProps.C03', 'SlacProps.C03Float', 'SlacProps.C03Source'], translate=True,
     streams=[
         dict(name='evaltable', n=n(0, 0), view='result'),
@@ -27,6 +27,7 @@ PROPS = {
     assumptions=['environment functions are history independent (Lean functions)'],
  ),
  'C04': dict(
+    srcgen={'SrcInterp': 'SlacProps.C04Source'},
     modules=['SlacProps.C04', 'SlacProps.C03Source'], translate=True,
     streams=[
         dict(name='evaltable', n=n(0, 0), view='full'),
@@ -258,6 +259,8 @@ PROPS = {
     modules=['SlacProps.C16', 'SlacProps.C16Float', 'SlacProps.C16Rfc', 'SlacProps.C16RfcFloat', 'SlacProps.C16Zone', 'SlacProps.C16ZoneFloat'],
     streams=[
         dict(name='tmrange', n=n(0, 1), view='tmrange', oracle='none', laws=['tmrange'], case_timeout=600.0),
+        # neighbouring instants (last millisecond of a day, midnight of the next, ...) decoded back to back, days before and after 1970; law on the crate alone
+        dict(name='tmpairs', n=n(40, 2000), model=False, oracle='none', laws=['tmrange'], case_timeout=120.0),
         dict(name='tzeast', gen='call:' + TIME_FNS, n=n(300, 6000), oracle='none', laws=['no_crash'], tz='CET-1CEST,M3.5.0,M10.5.0/3', tz_invariant=True),
         dict(name='tzwest', gen='call:' + TIME_FNS, n=n(300, 6000), oracle='none', laws=['no_crash'], tz='EST5EDT,M3.2.0,M11.1.0', tz_invariant=True),
         dict(name='tmfmt', gen='py:timegen.py fmt', n=n(6000, 150000), oracle='none', laws=['no_crash']),
@@ -275,11 +278,13 @@ PROPS = {
              'chrono (NaiveDate range, checked_add_months, default-format parsing/printing) is modelled by SlacModel/Time.lean on the canonical spellings only; other spellings/formats are skipped and counted'],
  ),
  'C17': dict(
-    modules=['SlacProps.C17', 'SlacProps.C17Debug'],
+    modules=['SlacProps.C17', 'SlacProps.C17Debug'], builds=['default', 'debug'],
     streams=[
         dict(name='call:str,float,int,bool,chr,ord,int_to_hex,even,odd,abs,round,trunc,frac,sqrt,exp,ln,sin,cos,arc_tan,pow', gen='call:str,float,int,bool,chr,ord,int_to_hex,even,odd,abs,round,trunc,frac,sqrt,exp,ln,sin,cos,arc_tan,pow', n=n(400, 20000), oracle='none', laws=['no_crash']),
         dict(name='num', n=n(60000, 2000000), oracle='none'),
         dict(name='mathlaw', n=n(20000, 1000000), model=False, oracle='none', laws=['ok']),
+        # the same laws in an UNOPTIMISED build, where `powf`, `sin`, ... are the C library's functions exactly as called (no compile-time rewriting)
+        dict(name='mathlaw', build='debug', n=n(12000, 200000), model=False, oracle='none', laws=['ok'], case_timeout=60.0),
     ],
     rule='call: the 20 conversion/maths builtins on boundary-heavy arguments against the model; num: every bit-level definition of Num.lean (trunc, fract, round, fmod, casts, decimal parsing, shortest printing) against the hardware / std; '
          'mathlaw (on the crate): builtin vs f64::method bit for bit incl. libm, float(str(x)) = x, trunc+frac, round half away, chr/ord over ALL 1 114 112 code points (exhaustive), parity and hex over -2000..2000, the 2^31 / 2^32 / 2^52 / 2^53 / 2^62 neighbourhoods and random integers',
